@@ -199,6 +199,8 @@ def run_property(P, tier, seed, replay=None):
             evaluations += len(cases)
             for c, a, b in zip(cases, impl, model):
                 why = None
+                if a.startswith("NOT-RUN"):
+                    continue        # only after the runner died repeatedly: those cases are reported
                 if a.startswith("HARNESS-PANIC") or a.startswith("RUNNER-DIED") or a.startswith("?unknown"):
                     why = "harness could not run the case: " + a[:200]
                 else:
@@ -231,7 +233,9 @@ def run_property(P, tier, seed, replay=None):
         out_lines.append("KNOWN-FINDING: property=%s class=%s %s (e.g. %s)" % (P.id, cls, txt, c[:120]))
 
     if violations:
-        c, why, a, b, prof = min(violations, key=lambda v: len(v[0]))
+        # a case whose output is wrong comes before one on which the runner died (after undefined behaviour the
+        # process may die on a later, innocent case)
+        c, why, a, b, prof = min(violations, key=lambda v: (v[1].startswith("harness could not run"), len(v[0])))
         try:
             small = shrink(P, c, prof, exes, lambda cc, aa, bb: (P.spec(cc, aa) or P.spec_raw(cc, P._raw_impl.get(cc, aa))) is not None and
                            not (P.known_class(cc, aa, P.spec(cc, aa)) and
